@@ -152,7 +152,21 @@ def _trace_to_get(idx, n, depth=0):
         b = idx.binding.get(n["res"]["id"])
         if b and b["kind"] == "let" and b.get("init") is not None and not b.get("path"):
             return _trace_to_get(idx, b["init"], depth + 1)
+    if n.get("k") == "Match":
+        # `match X.get(k) { Some(..) => <Option>, _ => None }`: Some only comes out of arms that matched Some(..)
+        g = _trace_to_get(idx, n["scrut"], depth + 1)
+        if g is not None and all(_is_some_pat(a["pat"]) or _always_none(a["body"]) for a in n["arms"]):
+            return g
+    if n.get("k") == "If" and n.get("else") is not None:
+        c = strip_transparent(n["cond"])
+        if c.get("k") == "LetExpr" and _is_some_pat(c["pat"]) and _always_none(n["else"]):
+            return _trace_to_get(idx, c["init"], depth + 1)
     return None
+
+
+def _always_none(e):
+    from .c02 import _leaves
+    return all(strip_transparent(x).get("k") == "Path" and strip_transparent(x)["res"].get("variant") == "None" for x in _leaves(e))
 
 
 def _search_index_of(idx, n, depth=0):
